@@ -18,6 +18,8 @@ pub fn apply_from(f: &str, x: &Proj) -> Proj {
             v.iter().map(|p| if let Proj::UInt(u) = p { *u as u64 } else { 0 }).fold(0u64, |a, b| a.wrapping_add(b)) as u128,
         ),
         ("wrap_id", x) => x.clone(),
+        ("shout_from", Proj::Str(s)) => Proj::Str(s.to_uppercase()),
+        ("inc_into", Proj::UInt(v)) => Proj::UInt((*v as u8).wrapping_add(1) as u128),
         _ => panic!("model: unknown from function {f} for {x:?}"),
     }
 }
